@@ -68,8 +68,53 @@ pub fn tamperings(r: &mut Rng, h: &Honest, other: Option<&Honest>, positions: us
             out.push(mk(&format!("edit-{}-{}: position {}", ["subst", "delete", "insert"][kind], part, i), h, with_jwt(h, t), honest_resolver.clone(), kb && r.chance(1, 2)));
         }
     }
+    // multi-byte characters substituted / inserted: at every one of the last 16 positions (code that slices the token by byte
+    // offsets from its end) and at a sample of other positions
+    {
+        let n = jwt.len();
+        let mut idx: Vec<usize> = (n.saturating_sub(16)..n).collect();
+        for _ in 0..(if all_positions { 40 } else { 6 }) {
+            idx.push(r.below(n));
+        }
+        for i in idx {
+            if !jwt.is_char_boundary(i) || jwt.as_bytes()[i] == b'.' {
+                continue;
+            }
+            for ch in ['\u{e9}', '\u{20ac}', '\u{1f600}'] {
+                if !all_positions && i + 16 < n && r.chance(2, 3) {
+                    continue;
+                }
+                let mut t = String::with_capacity(n + 4);
+                t.push_str(&jwt[..i]);
+                t.push(ch);
+                t.push_str(&jwt[i + 1..]);
+                out.push(mk(&format!("edit-subst-multibyte: position {} U+{:X}", i, ch as u32), h, with_jwt(h, t), honest_resolver.clone(), kb && r.chance(1, 2)));
+                let mut t = String::with_capacity(n + 4);
+                t.push_str(&jwt[..i]);
+                t.push(ch);
+                t.push_str(&jwt[i..]);
+                out.push(mk(&format!("edit-insert-multibyte: position {} U+{:X}", i, ch as u32), h, with_jwt(h, t), honest_resolver.clone(), kb && r.chance(1, 2)));
+            }
+        }
+    }
     let parts: Vec<&str> = jwt.split('.').collect();
     if parts.len() == 3 {
+        // the token names its own verification key in the protected header (RFC 7515 jwk) and is signed with it, payload forged;
+        // the resolver still returns the issuer's key
+        {
+            let attacker = if f.issue.key.fam() == Fam::Ed { KeyId::HolderEd } else { KeyId::HolderEc };
+            if let (Some(jwk), Some(mut pl)) = (attacker.jwk_json(), h.pres.payload()) {
+                if let Some(m) = pl.as_object_mut() {
+                    m.insert("role".into(), json!("admin"));
+                }
+                let hdr = json!({"alg": attacker.alg(), "jwk": jwk});
+                let t = sign_token(&hdr, &pl, attacker, attacker.alg());
+                out.push(mk("header-jwk-names-the-attackers-key", h, with_jwt(h, t), honest_resolver.clone(), kb));
+                let hdr2 = json!({"alg": attacker.alg(), "jwk": jwk, "kid": "attacker"});
+                let t2 = sign_token(&hdr2, &h.pres.payload().unwrap_or(json!({})), attacker, attacker.alg());
+                out.push(mk("header-jwk-names-the-attackers-key-original-payload", h, with_jwt(h, t2), honest_resolver.clone(), kb));
+            }
+        }
         // characters outside the base64url alphabet (padding, standard-alphabet characters, blanks) at the ends of each part
         for (pi, pname) in ["header", "payload", "signature"].iter().enumerate() {
             for extra in ["=", "==", "+", "/", " ", "%3D"] {
